@@ -4,7 +4,7 @@ import re
 from .common import (fkey, where, short, arg_is_local, follow_value, block_line, TYPES)
 from ..facts import op_place, op_const, AnchorLost, is_test_body
 from .. import flow
-from ..interp import Interp, Enum, Sym, Ref, Struct, Unsupported
+from ..interp import Interp, Enum, Sym, Ref, Struct, Unsupported, deref
 
 PID = "C16"
 LEVEL = "other"
@@ -41,25 +41,34 @@ def r1_only_invalid_params(ctx):
     for name, pat in FNS.items():
         b = F.one(pat)
         R.fn(b)
-        for bi, blk in enumerate(b.blocks):
-            if blk.get("cleanup") or bi not in b.reachable:
-                continue
-            for st in blk["st"]:
-                if st["s"] == "assign" and st["rv"]["k"] == "agg" and st["rv"].get("variant") == "Err" and st["rv"]["adt"].startswith("std::result::Result"):
-                    n += 1
-                    lv = tr.origins(b, st["rv"]["ops"][0])
-                    ok = bool(lv) and all(l.kind == "call" and re.search(r"params::invalid_params$", l.detail["callee"] or "") for l in lv)
-                    R.check(ok, "C16.R1", "%s:err#%d" % (name, n), "%s builds its error with invalid_params" % name, "%s builds an error that is not invalid_params(..): %s" % (name, [flow.leaf_str(l) for l in lv]), "%s:%d" % (b.file, st["sp"][0]))
-        for c in b.calls_to(r"Result::<.*>::map_err$"):
-            n += 1
-            k = op_const(c.args[1])
-            ok = k is not None and k.get("fn", "").endswith("params::invalid_params")
-            R.check(ok, "C16.R1", "%s:map_err#%d" % (name, n), "%s maps the serde error through invalid_params" % name, "%s maps a decode error through %s" % (name, k.get("fn") if k else "a closure"), where(c))
+        k_ = 0
+        for x in F.nested(b):
+            for bi, blk in enumerate(x.blocks):
+                if blk.get("cleanup") or bi not in x.reachable:
+                    continue
+                for st in blk["st"]:
+                    if st["s"] == "assign" and st["rv"]["k"] == "agg" and st["rv"].get("variant") == "Err" and st["rv"]["adt"].startswith("std::result::Result"):
+                        n += 1
+                        k_ += 1
+                        lv = tr.origins(x, st["rv"]["ops"][0])
+                        ok = bool(lv) and all(l.kind == "call" and re.search(r"params::invalid_params$", l.detail["callee"] or "") for l in lv)
+                        R.check(ok, "C16.R1", "%s:err#%d" % (name, k_), "%s builds its error with invalid_params" % name, "%s builds an error that is not invalid_params(..): %s" % (name, [flow.leaf_str(l) for l in lv]), "%s:%d" % (x.file, st["sp"][0]))
+            for c in x.calls_to(r"Result::<.*>::map_err$|Option::<.*>::ok_or_else$"):
+                n += 1
+                k_ += 1
+                k = op_const(c.args[1])
+                ok = k is not None and k.get("fn", "").endswith("params::invalid_params")
+                if not ok:
+                    # a closure: its body must build the error with invalid_params
+                    lv = tr.origins(x, c.args[1])
+                    cl = [F.bodies.get(l.detail.get("def")) for l in lv if l.kind == "closure"]
+                    ok = bool(cl) and all(y is not None and y.calls_to(r"params::invalid_params$") for y in cl)
+                R.check(ok, "C16.R1", "%s:map_err#%d" % (name, k_), "%s maps the serde error through invalid_params" % name, "%s maps a decode error through %s" % (name, k.get("fn") if k else "a closure that does not call invalid_params"), where(c))
         bad = [c for c in b.calls if re.search(r"::(unwrap|expect|unwrap_unchecked)$|^core::panicking::|^std::rt::begin_panic", c.name() or "") and not c.exp]
         R.check(not bad, "C16.R1", "%s:no-unwrap" % name, "%s has no unwrap/expect/panic" % name, "%s can panic on the decoded input (%s)" % (name, [short(c.name()) for c in bad]), where(bad[0]) if bad else None)
         other_err = [c for c in b.calls if re.search(r"ErrorObject::<'.*>::(owned|borrowed)$|ErrorObject.*From<.*ErrorCode>>::from$", c.name() or "")]
         R.check(not other_err, "C16.R1", "%s:no-other-error-ctor" % name, "%s uses no other error constructor" % name, "%s builds an error object directly (%s)" % (name, [short(c.name()) for c in other_err]), where(other_err[0]) if other_err else None)
-    R.floor("C16.R1", n, 4, "error construction sites in the decoding functions")
+    R.floor("C16.R1", n, 2, "error construction sites in the decoding functions")
     ip = F.one(r"^jsonrpsee_types::params::invalid_params$")
     R.fn(ip)
     has = any(st["s"] == "assign" and st["rv"]["k"] == "agg" and st["rv"].get("variant") == "InvalidParams" for blk in ip.blocks for st in blk["st"])
@@ -94,48 +103,76 @@ def _poison_blocks(b, tr):
     return out
 
 
+def _provenance_calls(tr, body, op, depth=6):
+    """callee names in the transitive provenance of `op` inside `body` (a call leaf's arguments are traced in turn)"""
+    seen = set()
+    work = [op]
+    names = set()
+    while work and depth > 0:
+        depth -= 1
+        nxt = []
+        for o in work:
+            for l in tr.origins(body, o):
+                if l.kind == "call":
+                    key = (l.detail.get("bb"), l.detail.get("callee"))
+                    if key in seen:
+                        continue
+                    seen.add(key)
+                    names.add(l.detail.get("callee") or "")
+                    nxt += list(l.detail.get("args") or [])
+                elif l.kind == "agg":
+                    nxt += list(l.detail.get("ops") or [])
+        work = nxt
+    return names
+
+
 def r2_poison_on_error(ctx):
     F, R = ctx.F, ctx.R
     b = F.one(FNS["next_inner"])
     R.fn(b)
-    pois = _poison_blocks(b, ctx.tracer(follow_callers=False, follow_fields=False))
+    tr = ctx.tracer(follow_callers=False, follow_fields=False, inline_calls=False)
+    pois = set(_poison_blocks(b, ctx.tracer(follow_callers=False, follow_fields=False)))
     R.floor("C16.R2", len(pois), 2, "assignments `self.0 = \"\"` in next_inner")
-    # (a) end-of-array arm: switch on the first byte, value 93 (`]`)
-    close_t = None
-    for bi, blk in enumerate(b.blocks):
-        t = blk["term"]
-        if t and t["t"] == "switch" and bi in b.reachable:
-            arms = {v: tb for v, tb in t["arms"]}
-            if "93" in arms:
-                close_t = arms["93"]
-                open_vals = sorted(v for v in arms if v != "93")
-                R.check(open_vals == ["44", "91"], "C16.R2", "first-byte-table", "an element is read only after `[` or `,`", "the first-byte switch accepts %s besides `]`" % open_vals, "%s:%d" % (b.file, block_line(b, bi)))
-    R.check(close_t is not None and any(b.dominates(close_t, p) for p in pois), "C16.R2", "poison-on-end-of-array", "reaching `]` empties the remaining input", "after the closing `]` the remaining input is not emptied: a later read can start inside what follows", "%s:%d" % (b.file, block_line(b, close_t) if close_t is not None else b.lo))
+    exits = {bi for bi, blk in enumerate(b.blocks) if blk["term"] and blk["term"]["t"] == "return"}
+    # (a) first byte: `]` (93) ends the array and empties the remainder; an element is read only behind `[` (91) / `,` (44)
+    edges = flow.const_case_edges(b, (93, 91, 44))
+    close = edges["93"]
+    ok = bool(close) and all(dst in pois or flow.all_paths_pass(b, dst, pois, exits) for _, dst in close)
+    R.check(ok, "C16.R2", "poison-on-end-of-array", "reaching `]` empties the remaining input", "after the closing `]` the remaining input is not emptied on every path: a later read can start inside what follows" if close else "next_inner no longer tests the first byte for `]`", "%s:%d" % (b.file, block_line(b, close[0][1]) if close else b.lo))
+    reads = b.calls_to(r"^serde_json::Deserializer::<.*>::from_str$|^serde_json::de::Deserializer::<.*>::from_str$|^serde_json::(de::)?from_str$")
+    if not reads:
+        raise AnchorLost("the element read (serde_json::Deserializer::from_str) of next_inner")
+    opening = set(edges["91"]) | set(edges["44"])
+    free = flow.reach_without_edges(b, 0, opening)
+    leak = [c for c in reads if c.bb in free]
+    R.check(bool(edges["91"]) and bool(edges["44"]) and not leak, "C16.R2", "first-byte-table", "an element is read only after `[` or `,`", "an element is read although the first byte is neither `[` nor `,` (the read at %s is reachable without passing either test)" % [where(c) for c in leak] if leak else "the `[` / `,` tests of next_inner were not found", "%s:%d" % (b.file, b.lo))
     # (b) parse failure arm
     nx = [c for c in b.calls_to(r"Iterator::next$|StreamDeserializer.*::next$") if "StreamDeserializer" in (c.self_ty or "") + (c.name() or "")]
     R.check(len(nx) == 1, "C16.R2", "stream-next", "one streaming read per element", "%d streaming reads" % len(nx), "%s:%d" % (b.file, b.lo))
-    tr = ctx.tracer(follow_callers=False, follow_fields=False)
+    err_ts = []
+    for l, loc in enumerate(b.locals):
+        if loc["ty"].startswith("std::result::Result<T,"):
+            for bi, arms, otherwise in flow.switch_on(b, l):
+                if "1" in arms:
+                    err_ts.append(arms["1"])
     for c in nx:
-        # iter.next()? -> Some(x) ; match x { Ok / Err }
-        err_t = ok_t = None
-        for bi, blk in enumerate(b.blocks):
-            t = blk["term"]
-            if t and t["t"] == "switch" and bi in b.reachable and b.dominates(c.bb, bi):
-                p = op_place(t["discr"])
-                if p is None:
-                    continue
-                for bj, sj, dpl, src in b.defs.get(p["l"], []):
-                    if src[0] == "rv" and src[1]["k"] == "discr":
-                        q = src[1]["pl"]
-                        if not q.get("p") and b.locals[q["l"]]["ty"].startswith("std::result::Result<T,"):
-                            arms = {v: tb for v, tb in t["arms"]}
-                            if "1" in arms and "0" in arms:
-                                ok_t, err_t = arms["0"], arms["1"]
-        R.check(err_t is not None and any(b.dominates(err_t, p) for p in pois), "C16.R2", "poison-on-parse-failure", "a failed element read empties the remaining input", "after a failed element read the remaining input is kept: later reads can yield an element from the wrong position", where(c))
-        # success: remaining = json[byte_offset..].trim_start()
-        bo = b.calls_to(r"StreamDeserializer::<.*>::byte_offset$")
-        R.check(len(bo) == 1 and ok_t is not None and b.dominates(ok_t, bo[0].bb), "C16.R2", "advance-by-consumed-bytes", "on success the input advances by the bytes the value consumed", "the success arm does not advance by byte_offset()", where(c))
-    # every return of Some(Err(..)) after input was inspected passes a poison block? (the unexpected-first-byte arm keeps the input: reading again yields the same error)
+        ok = bool(err_ts) and all(t in pois or flow.all_paths_pass(b, t, pois, exits) for t in err_ts)
+        R.check(ok, "C16.R2", "poison-on-parse-failure", "a failed element read empties the remaining input", "after a failed element read the remaining input is kept: later reads can yield an element from the wrong position" if err_ts else "the failure arm of the element read was not found in next_inner", where(c))
+    # success: the stored remainder is computed from byte_offset()
+    stores = 0
+    for bi, blk in enumerate(b.blocks):
+        if blk.get("cleanup") or bi not in b.reachable:
+            continue
+        for st in blk["st"]:
+            if not (st["s"] == "assign" and st["pl"]["l"] == 1 and [e for e in st["pl"].get("p", []) if isinstance(e, dict) and "f" in e] and st["rv"]["k"] == "use"):
+                continue
+            lv = tr.origins(b, st["rv"]["op"])
+            if lv and all(l.kind == "const" for l in lv):
+                continue
+            stores += 1
+            names = _provenance_calls(tr, b, st["rv"]["op"])
+            R.check(any(re.search(r"StreamDeserializer::<.*>::byte_offset$", n or "") for n in names), "C16.R2", "advance-by-consumed-bytes", "on success the input advances by the bytes the value consumed", "the remainder stored after an element is not computed from byte_offset() (%s)" % sorted(short(n) for n in names)[:5], "%s:%d" % (b.file, st["sp"][0]))
+    R.check(stores >= 1, "C16.R2", "advance-store", "next_inner stores the remainder after an element", "next_inner never stores the remainder after a successful read", "%s:%d" % (b.file, b.lo))
     R.note("the unexpected-first-byte arm returns an error without consuming: a repeated read yields the same error (allowed: 'later reads yield only errors or absent')")
 
 
@@ -183,22 +220,41 @@ def r4_absent_params(ctx):
     R.check(ok, "C16.R4", "parse:absent-is-null", "absent params are parsed as `null`", "Params::parse no longer substitutes \"null\" for absent params", "%s:%d" % (p.file, p.lo))
     s = F.one(r"^jsonrpsee_types::params::Params::<'a>::sequence$")
     R.fn(s)
-    consts = []
-    for bi, blk in enumerate(s.blocks):
-        for st in blk["st"]:
-            if st["s"] == "assign" and st["rv"]["k"] == "use":
-                k = op_const(st["rv"]["op"])
-                if k is not None and "str" in k:
-                    consts.append(k["str"])
-        t = blk["term"]
-        if t and t["t"] == "call":
-            for a in t["args"]:
-                k = op_const(a)
-                if k is not None and "str" in k:
-                    consts.append(k["str"])
-    R.check(consts.count("") >= 2 and "[]" in consts, "C16.R4", "sequence:absent-and-empty-array", "absent params and `[]` both give the empty sequence", "Params::sequence substitution constants are %s" % consts, "%s:%d" % (s.file, s.lo))
-    built = [st for blk in s.blocks for st in blk["st"] if st["s"] == "assign" and st["rv"]["k"] == "agg" and st["rv"].get("adt", "").endswith("ParamsSequence")]
-    R.check(len(built) == 1, "C16.R4", "sequence:builds-sequence", "sequence() builds one ParamsSequence", "sequence() builds %d ParamsSequence values" % len(built), "%s:%d" % (s.file, s.lo))
+    # decision table of sequence(): absent -> "", "[]" -> "", any other text -> that text
+    ident = lambda it, n, a: deref(a[0])
+    handlers = [
+        (re.compile(r"PartialEq.*::(eq|ne)$"), lambda it, n, a: (deref(a[0]) == deref(a[1])) ^ n.endswith("::ne")),
+        (re.compile(r"Deref>?::deref$|AsRef<.*>::as_ref$|Borrow<.*>::borrow$|Cow::<.*>::as_ref$|str::<impl str>::as_ref$"), ident),
+        (re.compile(r"Option::<.*>::(as_ref|as_deref)$"), ident),
+    ]
+    table = []
+    try:
+        for label, inp in (("absent", Enum("std::option::Option", 0, "None", [])), ("empty-array", Enum("std::option::Option", 1, "Some", ["[]"])), ("text", Enum("std::option::Option", 1, "Some", [Sym("text")]))):
+            got = Interp(F, call_handlers=handlers).run(s, [Ref([Struct("Params", [inp])])])
+            inner = deref(got.fields[0]) if isinstance(got, Struct) and got.fields else got
+            table.append((label, inner))
+    except Unsupported as e:
+        table = None
+        why = str(e)
+    if table is not None:
+        want = {"absent": "", "empty-array": "", "text": Sym("text")}
+        bad = [(l, g) for l, g in table if not (g == want[l])]
+        R.check(not bad, "C16.R4", "sequence:absent-and-empty-array", "sequence(): absent -> empty, `[]` -> empty, other text -> itself", "Params::sequence maps %s" % ", ".join("%s params to %r" % (l, g) for l, g in bad), "%s:%d" % (s.file, s.lo))
+    else:
+        consts = []
+        for bi, blk in enumerate(s.blocks):
+            for st in blk["st"]:
+                if st["s"] == "assign" and st["rv"]["k"] == "use":
+                    k = op_const(st["rv"]["op"])
+                    if k is not None and "str" in k:
+                        consts.append(k["str"])
+            t = blk["term"]
+            if t and t["t"] == "call":
+                for a in t["args"]:
+                    k = op_const(a)
+                    if k is not None and "str" in k:
+                        consts.append(k["str"])
+        R.check("" in consts and "[]" in consts, "C16.R4", "sequence:absent-and-empty-array", "absent params and `[]` both give the empty sequence (constant scan; the decision table could not be extracted: %s)" % why, "Params::sequence substitution constants are %s" % consts, "%s:%d" % (s.file, s.lo))
 
 
 
